@@ -400,6 +400,10 @@ func (c *clientH) Receive() (*BV, error) {
 	}
 	return nil, errEOF
 }
+
+// FinalErr is what the library's stream reports as its error right now.
+func (c *clientH) FinalErr() error { return c.s.Err() }
+
 func (c *clientH) Send(m *BV) error             { c.resp = m; return nil }
 func (c *clientH) RequestHeader() http.Header   { return c.s.RequestHeader() }
 func (c *clientH) ResponseHeader() http.Header  { return c.hdr }
